@@ -172,9 +172,18 @@ def oracle(case, notes=None):
             for p in tr:
                 if not math.isclose(fit_c[p], tr[p], rel_tol=2e-3, abs_tol=2e-3):
                     return ({"cls": cname, "clause": "equivariance", "param": p}, "fit(c x).%s = %r but transformed fit(x) gives %r (c=%r)" % (p, fit_c[p], tr[p], c))
-        elif abs(ll_a - ll_b) > 0.05 + 1e-4 * abs(ll_a):
+        elif not abs(ll_a - ll_b) <= 0.05 + 1e-4 * abs(ll_a):
             if notes is not None:
                 notes["unjudgeable_equivariance"] = notes.get("unjudgeable_equivariance", 0) + 1
+            if not abs(ll_a - ll_b) <= 1.0 + 1e-4 * abs(ll_a):
+                # more than one log-likelihood unit between fit(c x) and the transformed fit(x) is no optimiser tolerance
+                # (measured on the unchanged tree: 0 of 120 exponentiated Weibull / generalized gamma fits beyond 0.05 units;
+                # the free 3-parameter Weibull with shape near one up to 21 units and -inf: same known finding as loses-vs-true)
+                sg = {"cls": cname, "clause": "equivariance"}
+                if cname == "WeibullDistribution":
+                    sg["free"] = "all"
+                return (sg, "%s: fit(%r x) has log-likelihood %.3f on the scaled data, the transformed fit(x) %.3f (generating %r, %d observations, %s)"
+                        % (cname, c, ll_a, ll_b, th, len(x), "start %r" % case["start"] if case.get("start") else "default start"))
     return None
 
 
